@@ -70,8 +70,10 @@ func crashChild(args []string) {
 		gowarc.WithMaxFileSize(max), gowarc.WithCompression(comp), gowarc.WithFileNameGenerator(ng),
 		gowarc.WithMaxConcurrentWriters(1), gowarc.WithExpectedCompressionRatio(float64(rnum) / float64(rden)),
 		gowarc.WithFlush(cfg["flush"] == "t"),
-		gowarc.WithMarshaler(&killMarshaler{inner: gowarc.NewMarshaler(), budget: &budget}),
 	}
+	// records the marshaler fails on (op F): the partial bytes are written through the same kill writer, then taken back
+	fm := &failAfterMarshaler{inner: gowarc.NewMarshaler(), failAt: map[int]int{}, segAt: map[int]int{}}
+	wopts = append(wopts, gowarc.WithMarshaler(&killMarshaler{inner: fm, budget: &budget}))
 	if cfg["info"] == "t" {
 		wopts = append(wopts, gowarc.WithWarcInfoFunc(func(rb gowarc.WarcRecordBuilder) error {
 			rb.AddWarcHeader("WARC-Record-ID", fmt.Sprintf("<urn:uuid:99%06d-0000-4000-8000-000000000000>", len(ng.names)))
@@ -85,12 +87,17 @@ func crashChild(args []string) {
 			_ = w.Rotate()
 			continue
 		}
-		f := strings.Split(strings.TrimPrefix(op, "B:"), ",")
+		failing := strings.HasPrefix(op, "F:")
+		f := strings.Split(strings.TrimPrefix(strings.TrimPrefix(op, "B:"), "F:"), ",")
 		if len(f) != 4 {
 			os.Exit(4)
 		}
 		tok, _ := strconv.Atoi(f[0])
 		size, _ := strconv.Atoi(f[2])
+		if failing {
+			k, _ := strconv.Atoi(f[3])
+			fm.failAt[tok] = k
+		}
 		wr := &wrec{tok: tok, kind: f[1], size: size, decl: "t"}
 		if err := buildWrec(wr); err != nil {
 			os.Exit(5)
@@ -108,7 +115,7 @@ func crashChild(args []string) {
 }
 
 type traceEff struct {
-	kind string // C W S X R A
+	kind string // C W S X R A T
 	path string
 	n    int64
 	to   string
@@ -176,6 +183,14 @@ func parseTrace(path, outDir, ackPath string) ([]traceEff, error) {
 			} else if strings.HasPrefix(p, outDir+"/") {
 				effs = append(effs, traceEff{kind: "W", path: p, n: rv})
 			}
+		case "ftruncate":
+			pm := rePathFd.FindStringSubmatch(argstr)
+			if pm != nil && strings.HasPrefix(pm[1], outDir+"/") {
+				if i := strings.LastIndex(argstr, ","); i >= 0 {
+					n, _ := strconv.ParseInt(strings.TrimSpace(argstr[i+1:]), 10, 64)
+					effs = append(effs, traceEff{kind: "T", path: pm[1], n: n})
+				}
+			}
 		case "fsync":
 			pm := rePathFd.FindStringSubmatch(argstr)
 			if pm != nil && strings.HasPrefix(pm[1], outDir+"/") {
@@ -201,7 +216,7 @@ func runChild(strace bool, tracePath string, cfgArg, opsArg, dir string, kill in
 	childArgs := []string{self, "crashchild", cfgArg, opsArg, dir, strconv.FormatInt(kill, 10)}
 	var cmd *exec.Cmd
 	if strace {
-		a := append([]string{"-f", "-y", "-s", "0", "-e", "trace=openat,write,pwrite64,fsync,close,rename,renameat,renameat2", "-o", tracePath}, childArgs...)
+		a := append([]string{"-f", "-y", "-s", "0", "-e", "trace=openat,write,pwrite64,fsync,close,rename,renameat,renameat2,ftruncate", "-o", tracePath}, childArgs...)
 		cmd = exec.Command("strace", a...)
 	} else {
 		cmd = exec.Command(childArgs[0], childArgs[1:]...)
@@ -379,6 +394,9 @@ func kCrash(args []string) (string, string) {
 			written[e.path] = 0
 			lastW = -1
 		case "W":
+			if e.n == 0 {
+				continue // a write of no bytes (the failing marshaler of op F with k = 0) has no effect on the file
+			}
 			if renamed[e.path] || !strings.HasSuffix(e.path, ".open") {
 				if viol == "" {
 					viol = fmt.Sprintf("VIOL c12-final-written effect=%d write-to-%s-after-it-got-its-final-name", i, filepath.Base(e.path))
@@ -399,6 +417,30 @@ func kCrash(args []string) (string, string) {
 			} else {
 				toks = append(toks, fmt.Sprintf("W%d:%d", idOf(e.path), e.n))
 				lastW = len(toks) - 1
+			}
+		case "T":
+			// the writer takes back what a failed record left in the file: the bytes are no longer part of the log of what
+			// stays on disk (the model's effect log has no effect for them)
+			delta := written[e.path] - e.n
+			if delta < 0 {
+				if viol == "" {
+					viol = fmt.Sprintf("VIOL c12-open-shape effect=%d file=%s truncated-to-%d-beyond-its-length-%d", i, filepath.Base(e.path), e.n, written[e.path])
+				}
+				delta = 0
+			}
+			written[e.path] = e.n
+			if delta > 0 && lastW >= 0 && lastW == len(toks)-1 && strings.HasPrefix(toks[lastW], fmt.Sprintf("W%d:", idOf(e.path))) {
+				prev, _ := strconv.ParseInt(strings.SplitN(toks[lastW], ":", 2)[1], 10, 64)
+				if prev-delta > 0 {
+					toks[lastW] = fmt.Sprintf("W%d:%d", idOf(e.path), prev-delta)
+				} else {
+					toks = toks[:lastW]
+					lastW = -1
+					// the write before the failed record may be the token to merge the next write with
+					if n := len(toks); n > 0 && strings.HasPrefix(toks[n-1], fmt.Sprintf("W%d:", idOf(e.path))) {
+						lastW = n - 1
+					}
+				}
 			}
 		case "S":
 			toks = append(toks, fmt.Sprintf("S%d", idOf(e.path)))
@@ -502,6 +544,13 @@ func genCrash(r *rng, n int, tier string, emit func(string, ...string)) {
 			}
 			tok++
 			size := r.rangeInt(0, 700)
+			if r.chance(1, 8) {
+				// a record the marshaler fails on: refused before the first byte, inside the header, inside the block
+				ops = append(ops, fmt.Sprintf("F:%d,%s,%d,%d", tok%90000000, pick(r, []string{"r", "h", "m"}), size, pick(r, []int{-1, 0, 9, 150, 100000})))
+				stat("crash-op", "failed-record")
+				total += 200
+				continue
+			}
 			total += size + 400
 			ops = append(ops, fmt.Sprintf("B:%d,%s,%d,t", tok%90000000, pick(r, []string{"r", "h", "q", "m"}), size))
 		}
